@@ -1,6 +1,8 @@
 #!/bin/bash
-# tools/seedall.sh C03 C04 ...   : validate both seeds of each listed property against its own check
+# tools/seedall.sh [ids...] : re-validate every kept seed (seeded/<id>_<variant>) against the current /repo HEAD and the current
+# checks, four at a time; prints one line per seed. Each validation uses scratch worktrees under /tmp that it removes itself.
 cd /verif
-for id in "$@"; do for v in A B; do
-  [ -d seeded_pending/${id}_out/$v ] && python3 tools/seedcheck.py seeded_pending/${id}_out/$v 2>&1 | grep -v WARNING | tail -1
-done; done
+ids="$@"
+[ -z "$ids" ] && ids=$(ls seeded | sed 's/_.*//' | sort -u)
+for id in $ids; do for d in seeded/${id}_*; do echo $d; done; done | \
+  xargs -P 4 -I{} sh -c 'python3 tools/seedcheck.py {} 2>&1 | grep -v WARNING | tail -1'
